@@ -449,7 +449,7 @@ SOLVES = [
 def gen_case(rng, circuit_friendly=False):
     nv = rng.randint(2, 4)
     five = not circuit_friendly and rng.random() < 0.08        # five variables over tiny domains: sums with 5 distinct terms
-    anon = not circuit_friendly and not five and rng.random() < 0.1     # several unnamed helper variables that search has to decide
+    anon = not circuit_friendly and not five and rng.random() < 0.2     # several unnamed helper variables that search has to decide
     if five:
         nv = 5
     vars_, doms = [], []
@@ -463,18 +463,20 @@ def gen_case(rng, circuit_friendly=False):
         else:
             lb = rng.randint(-2, 3)
             ub = lb + rng.choice([0, 1, 2, 2, 3, 3, 4])
-        name = None if rng.random() < (0.6 if anon else 0.08) else ("x%d" % i)
+        name = None if rng.random() < (0.75 if anon else 0.08) else ("x%d" % i)
         vars_.append([name, lb, ub])
         doms.append([lb, ub])
     ncon = rng.choice([1, 1, 1, 2, 2, 3])
     cons = [gen_con(rng, nv, doms) for _ in range(ncon)]
     if anon and nv >= 3:
         # constraints propagation alone does not decide while unnamed variables are open: a pigeonhole-tight all_different / a sum
+        tight = rng.random() < 0.7          # one common domain with as many values as variables, or one fewer (no solution at all)
+        lb0 = rng.randint(0, 1)
         for i in range(nv):
-            lb = rng.randint(0, 1)
-            vars_[i][1], vars_[i][2] = lb, lb + rng.choice([1, 2, 2])
+            lb = lb0 if tight else rng.randint(0, 1)
+            vars_[i][1], vars_[i][2] = lb, (lb0 + nv - rng.choice([1, 2, 2])) if tight else lb + rng.choice([1, 2, 2])
             doms[i] = [vars_[i][1], vars_[i][2]]
-        cons[0] = ["all_different", list(range(nv))] if rng.random() < 0.5 else \
+        cons[0] = ["all_different", list(range(nv))] if rng.random() < 0.7 else \
                   ["cmp", "eq", ["add", ["add", _v(0), _v(1)], _v(2)], _c(rng.randint(sum(d[0] for d in doms[:3]), sum(d[1] for d in doms[:3])))]
     if five:
         vs = list(range(5))
